@@ -709,7 +709,9 @@ fire("c19-units-period-in-ms", "C19", ["C19.units"],
      (MINTYPES, "QuoInt64(int64(periodDuration))", "QuoInt64(periodDuration.Milliseconds())"))
 fire("c19-units-step-in-seconds", "C19", ["C19.units"],
      (MINTYPES, "	mintedYearly := epochAmount.MulInt64(int64(year)).QuoInt64(epoch)", "	mintedYearly := epochAmount.MulInt64(int64(year)).QuoInt64(int64(m.StepDuration.Seconds()))"))
-silent("c19-units-all-in-ms", "C19",
+# (consistent scale, but Duration.Milliseconds() truncates the sub-millisecond part of the period: the rate changes for
+# periods that are not a whole number of ms - reported since the units analysis treats the rescaling as truncating)
+fire("c19-units-all-in-ms", "C19", ["C19.units"],
      (MINTYPES, "	mintedYearly := sdk.NewDecFromInt(m.Amount).MulInt64(int64(year)).QuoInt64(int64(periodDuration))", "	mintedYearly := sdk.NewDecFromInt(m.Amount).MulInt64(year.Milliseconds()).QuoInt64(periodDuration.Milliseconds())"))
 
 # ---------------- round-2 seeded-derived ----------------
